@@ -39,13 +39,18 @@ def select(table, rng, thorough):
         return list(table)
     out = []
     for e in table:
-        core = e["default"] or e["mut"]["kind"] == "none" or _is_r0(e, table)
+        core = e["default"] or e["mut"]["kind"] == "none" or _is_r0(e, table) or _is_r0_sub(e, table)
         if core or rng.random() < 0.06:
             out.append(e)
     return out
 
 
 _R0 = {}
+
+
+def _is_r0_sub(e, table):
+    r0 = _R0.get(e["base"])
+    return r0 is not None and e["route"] == {**r0, "sub": True}
 
 
 def _is_r0(e, table):
@@ -67,7 +72,7 @@ def other_process(entries, hashseed, workdir, tag):
     fin = os.path.join(workdir, f"job{tag}.json")
     fout = os.path.join(workdir, f"ids{tag}.json")
     with open(fin, "w") as f:
-        json.dump({"seed": 0, "entries": entries}, f)
+        json.dump({"seed": 0, "entries": entries, "defaults": dict(B.DEFAULT_LABELS)}, f)
     env = dict(os.environ)
     env["PYTHONHASHSEED"] = str(hashseed)
     env["PYTHONPATH"] = VERIF + os.pathsep + env.get("PYTHONPATH", "")
@@ -208,7 +213,10 @@ def main(tier, seed):
         if "DESIGN-DIVERGENCE" in line:
             run.set(design_divergence="listed in the TLC output of IdentityMC (hidden components num/index/branch by which routes differ)")
 
-    table = tlc.oracle("IdentityOracle", [{"k": "scenarios"}], timeout=300)[0]["table"]
+    scen_answer = tlc.oracle("IdentityOracle", [{"k": "scenarios"}], timeout=300)[0]
+    table = scen_answer["table"]
+    B.DEFAULT_LABELS.clear()
+    B.DEFAULT_LABELS.update(scen_answer["defaults"])
     if len(table) < 3000:
         raise MachineryError(f"scenario table has only {len(table)} rows")
     chosen = select(table, rng, thorough)
@@ -298,7 +306,7 @@ def main(tier, seed):
             rule="scenario = base content (2 metadata-only, 4 point, 4 model) x minimal mutation (each metadata value/key, each unit label, material, adsorbate, "
                  "temperature, first/last datum of each numeric column +-1e-7, +6e-9, +4e-9, +-1e-10, branch mark, row removed/swapped, text cell, model "
                  "parameter/range/rmse/branch) x construction route (container, int/float literals, branch as ints/bools/column, direct/from_isotherm/JSON/"
-                 "deepcopy/dict, insertion order, adsorbate spelling), enumerated by TLC; " + ("all rows" if thorough else "every mutation on the default route, every route on the unmutated content, 6% seeded of the rest")
+                 "deepcopy/dict, insertion order, adsorbate spelling, branch marks guessed (no marks given) under every row labelling, default unit labels omitted after an isotherm with other units was built, trivial user subclass), enumerated by TLC; " + ("all rows" if thorough else "every mutation on the default route, every route on the unmutated content, 6% seeded of the rest")
                  + "; every object also re-built in " + ("2 other processes" if thorough else "1 other process") + " with another PYTHONHASHSEED and read through a seeded sequence of read-only calls; "
                  "all pairs of one base judged by TLC; edit-after-read histories: every mutation applied IN PLACE to a live object whose id was read (iso_id / == / repr / in), through every way of editing (loc, iloc, at, column assignment, drop, properties[], setattr, setters, model.params[]), id compared with a fresh object of the edited content, then undone; non-trivial = not the unmutated default-route object; distinct = distinct (base, mutation, route)")
     run.assume("contents are rendered from the fixed-point records of the spec with decimal arithmetic; no rendered number lies on an 8-decimal rounding tie (InvWellFormed)")
